@@ -32,3 +32,131 @@ Proof. unfold lattice.
     pose proof (intern_all_length (sk_vertices st) c) as Hl. destruct (intern_all (sk_vertices st) c) as [ks tbl]. simpl in *.
     rewrite app_length, map_app. simpl. rewrite Hl, <- app_assoc. split; [lia|reflexivity]. }
   destruct (G contours (mkSk [] [])) as [H1 H2]. simpl in *. split; assumption. Qed.
+
+(* ------------------------------------------------------------------ the large-area filter *)
+From Coq Require Import Permutation.
+
+Lemma last_cons_d {A} (p : A) t a : last (p :: t) a = last t p.
+Proof. revert p a; induction t as [|q t IH]; intros p a; [reflexivity|]. change (last (p :: q :: t) a) with (last (q :: t) a). rewrite !IH. reflexivity. Qed.
+Lemma last_ne_indep {A} (l : list A) d d' : l <> [] -> last l d = last l d'.
+Proof. destruct l as [|p t]; [congruence|]. intros _. rewrite !last_cons_d. reflexivity. Qed.
+Lemma last_map_pix (g : pix -> pix) l d : last (map g l) (g d) = g (last l d).
+Proof. revert d; induction l as [|p t IH]; intros d; [reflexivity|]. simpl map. rewrite !last_cons_d. apply IH. Qed.
+
+Section Affine.
+  Variables m11 m12 m21 m22 tx ty : Z.
+  Let g := affine m11 m12 m21 m22 tx ty.
+  Let det := m11 * m22 - m12 * m21.
+  Let h (q : pix) := (m11 * fst q + m12 * snd q) * ty - (m21 * fst q + m22 * snd q) * tx.
+  Lemma zprev_affine a l : zprev_sum (g a) (map g l) = det * zprev_sum a l + h (last l a) - h a.
+  Proof. revert a; induction l as [|p t IH]; intros a; [simpl; ring|].
+    simpl map. cbn [zprev_sum]. rewrite IH, last_cons_d. unfold g, affine, h, det. cbn [fst snd]. ring. Qed.
+  Lemma signed_area2_affine c : signed_area2 (map g c) = det * signed_area2 c.
+  Proof. destruct c as [|p t]; [simpl; ring|]. change (signed_area2 (map g (p :: t))) with (zprev_sum (last (map g (p :: t)) (g p)) (map g (p :: t))).
+    rewrite last_map_pix, zprev_affine. unfold signed_area2.
+    rewrite (last_ne_indep (p :: t) (last (p :: t) p) p) by discriminate. ring. Qed.
+  Lemma area2_affine c : area2_pix (map g c) = Z.abs det * area2_pix c.
+  Proof. unfold area2_pix. rewrite signed_area2_affine, Z.abs_mul. reflexivity. Qed.
+End Affine.
+
+(* the area of a contour is the same after a translation, a flip, a transposition, a quarter turn (any affine map of determinant +-1) *)
+Theorem area2_isometry m11 m12 m21 m22 tx ty c : Z.abs (m11 * m22 - m12 * m21) = 1 ->
+  area2_pix (map (affine m11 m12 m21 m22 tx ty) c) = area2_pix c.
+Proof. intros H. rewrite area2_affine, H. ring. Qed.
+
+(* ... and does not depend on the pixel the contour starts at, nor on its sense *)
+Lemma zprev_app a l1 l2 : zprev_sum a (l1 ++ l2) = zprev_sum a l1 + zprev_sum (last l1 a) l2.
+Proof. revert a; induction l1 as [|p t IH]; intros a; [simpl; ring|]. simpl app. cbn [zprev_sum]. rewrite IH, last_cons_d. ring. Qed.
+Lemma last_app_ne' {A} (l1 l2 : list A) d d' : l2 <> [] -> last (l1 ++ l2) d = last l2 d'.
+Proof. intros H. revert d; induction l1 as [|p t IH]; intros d; [apply last_ne_indep; exact H|].
+  change ((p :: t) ++ l2) with (p :: (t ++ l2)). rewrite last_cons_d. apply IH. Qed.
+Lemma last_app_ne {A} (l1 l2 : list A) d : l2 <> [] -> last (l1 ++ l2) d = last l2 d.
+Proof. apply last_app_ne'. Qed.
+Lemma signed_area2_ne c d : c <> [] -> signed_area2 c = zprev_sum (last c d) c.
+Proof. destruct c as [|p t]; [congruence|]. intros _. unfold signed_area2. rewrite (last_ne_indep (p :: t) p d) by discriminate. reflexivity. Qed.
+Theorem signed_area2_rotate l1 l2 : signed_area2 (l2 ++ l1) = signed_area2 (l1 ++ l2).
+Proof. destruct l1 as [|p1 t1]; [rewrite app_nil_r; reflexivity|]. destruct l2 as [|p2 t2]; [rewrite app_nil_r; reflexivity|].
+  set (L1 := p1 :: t1). set (L2 := p2 :: t2).
+  assert (N1 : L1 <> []) by discriminate. assert (N2 : L2 <> []) by discriminate.
+  rewrite (signed_area2_ne (L2 ++ L1) p1) by (intros E; apply app_eq_nil in E; destruct E; auto).
+  rewrite (signed_area2_ne (L1 ++ L2) p1) by (intros E; apply app_eq_nil in E; destruct E; auto).
+  rewrite !zprev_app. rewrite (last_app_ne' L2 L1 p1 p1 N1), (last_app_ne' L1 L2 p1 p1 N2).
+  rewrite (last_ne_indep L2 (last L1 p1) p1 N2). rewrite (last_ne_indep L1 (last L2 p1) p1 N1). ring. Qed.
+Theorem area2_rotate l1 l2 : area2_pix (l2 ++ l1) = area2_pix (l1 ++ l2).
+Proof. unfold area2_pix. rewrite signed_area2_rotate. reflexivity. Qed.
+
+Lemma zprev_rev a b l : zprev_sum a (l ++ [b]) = - zprev_sum b (rev l ++ [a]).
+Proof. revert a; induction l as [|p t IH]; intros a; [simpl; ring|].
+  change ((p :: t) ++ [b]) with (p :: (t ++ [b])). cbn [zprev_sum]. rewrite IH. simpl rev. rewrite (zprev_app b (rev t ++ [p]) [a]).
+  rewrite last_last. cbn [zprev_sum]. ring. Qed.
+Lemma signed_area2_closed a t : signed_area2 (a :: t) = zprev_sum a (t ++ [a]).
+Proof. change (a :: t) with ([a] ++ t). rewrite <- signed_area2_rotate.
+  rewrite (signed_area2_ne (t ++ [a]) a) by (intros E; apply app_eq_nil in E; destruct E; discriminate). rewrite last_last. reflexivity. Qed.
+Theorem signed_area2_reverse c : signed_area2 (rev c) = - signed_area2 c.
+Proof. destruct c as [|a t]; [reflexivity|]. simpl rev. rewrite (signed_area2_rotate [a] (rev t)). simpl app.
+  rewrite !signed_area2_closed. rewrite (zprev_rev a a t). ring. Qed.
+Theorem area2_reverse c : area2_pix (rev c) = area2_pix c.
+Proof. unfold area2_pix. rewrite signed_area2_reverse, Z.abs_opp. reflexivity. Qed.
+
+(* ---- the filter *)
+Lemma zsum_perm l1 l2 : Permutation l1 l2 -> zsum l1 = zsum l2.
+Proof. induction 1; simpl; lia. Qed.
+Lemma zmax_perm l1 l2 : Permutation l1 l2 -> zmax l1 = zmax l2.
+Proof. induction 1; simpl; lia. Qed.
+Lemma keeps_perm a1 a2 x : Permutation a1 a2 -> keeps a1 x = keeps a2 x.
+Proof. intros H. unfold keeps. rewrite (Permutation_length H), (zsum_perm _ _ H), (zmax_perm _ _ H). reflexivity. Qed.
+
+(* a contour is kept exactly when its OWN area is below the threshold; the threshold is a function of the multiset of areas *)
+Theorem area_filter_spec cs c : In c (area_filter cs) <-> In c cs /\ keeps (map area2_pix cs) (area2_pix c) = true.
+Proof. unfold area_filter. apply filter_In. Qed.
+
+Lemma filter_perm {A} (p : A -> bool) l1 l2 : Permutation l1 l2 -> Permutation (filter p l1) (filter p l2).
+Proof. induction 1 as [|x l1 l2 H IH|x y l|l1 l2 l3 H1 IH1 H2 IH2]; simpl.
+  - constructor.
+  - destruct (p x); [constructor|]; exact IH.
+  - destruct (p x), (p y); try apply Permutation_refl; apply perm_swap.
+  - eapply Permutation_trans; eassumption. Qed.
+Lemma filter_ext_in' {A} (p q : A -> bool) l : (forall x, p x = q x) -> filter p l = filter q l.
+Proof. intros H. induction l as [|x t IH]; simpl; [reflexivity|]. rewrite H, IH. reflexivity. Qed.
+
+(* the outcome does not depend on the order in which OpenCV lists the contours *)
+Theorem area_filter_perm cs cs' : Permutation cs cs' -> Permutation (area_filter cs) (area_filter cs').
+Proof. intros H. unfold area_filter.
+  rewrite (filter_ext_in' (fun c => keeps (map area2_pix cs) (area2_pix c)) (fun c => keeps (map area2_pix cs') (area2_pix c))).
+  - apply filter_perm. exact H.
+  - intros c. apply keeps_perm. apply Permutation_map. exact H. Qed.
+
+(* the kept contours stay in the order they came in (cell ids follow contour order) *)
+Inductive subseq {A} : list A -> list A -> Prop :=
+| sub_nil : subseq [] []
+| sub_keep x l1 l2 : subseq l1 l2 -> subseq (x :: l1) (x :: l2)
+| sub_drop x l1 l2 : subseq l1 l2 -> subseq l1 (x :: l2).
+Lemma filter_subseq {A} (p : A -> bool) l : subseq (filter p l) l.
+Proof. induction l as [|x t IH]; simpl; [constructor|]. destruct (p x); constructor; exact IH. Qed.
+Theorem area_filter_keeps_order cs : subseq (area_filter cs) cs.
+Proof. apply filter_subseq. Qed.
+
+Lemma filter_map_comm {A B} (f : A -> B) (p : B -> bool) l : filter p (map f l) = map f (filter (fun x => p (f x)) l).
+Proof. induction l as [|x t IH]; simpl; [reflexivity|]. destruct (p (f x)); simpl; rewrite IH; reflexivity. Qed.
+
+(* the filter commutes with every map of the pixels that preserves contour areas ... *)
+Theorem area_filter_commutes (g : pix -> pix) cs : (forall c, area2_pix (map g c) = area2_pix c) ->
+  area_filter (map (map g) cs) = map (map g) (area_filter cs).
+Proof. intros H. unfold area_filter. rewrite filter_map_comm. f_equal.
+  assert (E : map area2_pix (map (map g) cs) = map area2_pix cs) by (rewrite map_map; apply map_ext; exact H).
+  rewrite E. apply filter_ext_in'. intros c. rewrite H. reflexivity. Qed.
+(* ... in particular with translations (padding), flips, transposition and quarter turns *)
+Theorem area_filter_isometry m11 m12 m21 m22 tx ty cs : Z.abs (m11 * m22 - m12 * m21) = 1 ->
+  area_filter (map (map (affine m11 m12 m21 m22 tx ty)) cs) = map (map (affine m11 m12 m21 m22 tx ty)) (area_filter cs).
+Proof. intros H. apply area_filter_commutes. intros c. apply area2_isometry. exact H. Qed.
+
+(* the largest region never enters the mean: making it larger changes nothing for the others *)
+Lemma zmax_ge l : forall x, In x l -> x <= zmax l.
+Proof. induction l as [|y t IH]; simpl; [tauto|]. intros x [-> | Hx]; [lia|]. specialize (IH x Hx). lia. Qed.
+Theorem threshold_ignores_the_largest (rest : list Z) (big big' x : Z) :
+  (forall y, In y rest -> 0 <= y) -> zmax rest <= big -> big <= big' -> keeps (big :: rest) x = keeps (big' :: rest) x.
+Proof. intros Hpos H1 H2. unfold keeps. cbn [length zsum zmax fold_right].
+  assert (0 <= zmax rest) by (clear -Hpos; induction rest as [|y t IH]; simpl; [lia|]; assert (0 <= y) by (apply Hpos; left; reflexivity);
+                               assert (0 <= fold_right Z.max 0 t) by (apply IH; intros; apply Hpos; right; assumption); lia).
+  fold (zsum rest). fold (zmax rest). replace (big + zsum rest - Z.max big (zmax rest)) with (zsum rest) by lia.
+  replace (big' + zsum rest - Z.max big' (zmax rest)) with (zsum rest) by lia. reflexivity. Qed.
